@@ -734,7 +734,7 @@ class QvmCode(BaseCode):
 
         data_section = struct.pack('>H', len(self._data))
         for data_part in self._data.values():
-            data_section += struct.pack('>h', len(data_part))
+            data_section += struct.pack('>H', len(data_part))
             for data_item in data_part:
                 if data_item == Empty.value:
                     data_section += struct.pack('>h', -1)
